@@ -538,7 +538,7 @@ macro_rules! eps_arr_zero {
         }
     )*};
 }
-eps_arr_zero!(u32; 3, u16; 0, u16; 2, u64; 2, Z8; 2, (); 2, u8; 5);
+eps_arr_zero!(u32; 3, u16; 0, u16; 2, u64; 2, Z8; 2, (); 2, u8; 5, u8; 3, (u16, u16); 2);
 
 /// arrays of deep elements: array of substituted elements
 macro_rules! eps_arr_deep {
